@@ -257,8 +257,23 @@ func init() {
 				GetOut:    map[string]int{"ok": 10, "notfound": 2, "err": 1, "timeout": 2},
 				CallOut:   map[string]int{"result": 6, "resource": 4, "err": 2, "timeout": 1, "null": 1},
 			},
+			// requests that wait on access checks queued in a reset throttle
+			{Name: "c07-throttled", MinOps: 8, MaxOps: 45, MaxConns: 2, Versions: stdVersions, Throttle: true,
+				W:         weightsWith(map[string]int{"badreq": 1, "call": 12, "auth": 1, "new": 2, "delete": 1, "reaccess": 3, "token": 2, "unsubscribe": 14, "sysreset": 4, "throtburst": 10, "subscribe": 18, "trigburst": 4}),
+				AccessOut: map[string]int{"grant": 12, "calllist": 2, "deny": 2, "denied": 1, "err": 1, "timeout": 1},
+				GetOut:    map[string]int{"ok": 10, "notfound": 1, "timeout": 1},
+				CallOut:   map[string]int{"result": 6, "resource": 4, "err": 2, "timeout": 1},
+				Patterns:  []string{">", "t.>", "t.*", "t.a", "t.b"},
+			},
 		},
-		Config:   stdConfig,
+		Config: func(t *rapid.T, p *Profile) WorldConfig {
+			cfg := stdConfig(t, p)
+			if p.Throttle {
+				cfg.ResetThrottle = rapid.IntRange(1, 2).Draw(t, "resetthrottle")
+				cfg.ReferenceThrottle = rapid.IntRange(0, 2).Draw(t, "refthrottle")
+			}
+			return cfg
+		},
 		Monitors: func() []Monitor { return []Monitor{NewMonC07()} },
 		Trigger:  triggerC07,
 	})
